@@ -483,6 +483,7 @@ def run(ctx, out):
          ["close", "0"], ["new", "-"]],
         [["new", "A"], ["read", "A", "0"], ["read", "A", "1"], ["rename", "0", "B", "0"], ["rename", "1", "B", "0"]],
     ]
+    corpus = corpus + iosession.corpus_histories("C19")
     hists = list(corpus)
     for i in range(n_hist):
         hists.append(gen_history(ctx.rng("hist", i), length))
